@@ -55,6 +55,14 @@ def _profile_functions(fn_call):
         sys.setprofile(None)
 
 
+def _cvc5_version():
+    try:
+        import cvc5
+        return cvc5.__version__
+    except Exception:
+        return "absent"
+
+
 def _new_stats(tier):
     return dict(requires=0, ground_true=0, obligations=0, discharged=0, unknown=0, unknown_labels=[], solver_s=0.0,
                 max_query_s=0.0, queries=0, samples=[], candidates=[], paths_with_requires=0, paths_witnessed=0,
@@ -70,6 +78,8 @@ def run_case(idx):
     seed = _G["seed"]
     t0 = time.time()
     stats = _new_stats(tier)
+    stats["cross_left"] = _G.get("cross_per_case", 0) if idx in _G.get("cross_cases", ()) else 0
+    stats["cross_timeout_ms"] = 1500 if tier == "quick" else 4000
     ot = case.oblig_timeout_ms or (10000 if tier == "quick" else 60000)
     state = {"first": True, "functions": set()}
     outcomes = {"ok": 0, "raise": 0, "unsupported": 0, "domain": 0, "limit": 0}
@@ -292,7 +302,16 @@ def main(argv=None):
     nconf = getattr(H, "CONFORM", {"quick": 24, "thorough": 96})[a.tier]
     confable = [i for i, c in enumerate(cases) if c.conform]
     conform = set(rnd.sample(confable, min(nconf, len(confable))))
-    _G.update(cases=cases, mods=mods, tier=a.tier, seed=seed, conform=conform)
+    # second-opinion budget: queries per case that are re-decided by cvc5 (0 disables)
+    # (a seeded sample of the cases, so that the second opinion costs seconds, not minutes: cvc5 is slow on non-linear reals)
+    cross = int(os.environ.get("VERIF_CROSS_PER_CASE", "1" if a.tier == "quick" else "3"))
+    ncross = int(os.environ.get("VERIF_CROSS_CASES", "64" if a.tier == "quick" else "600"))
+    try:
+        import cvc5  # noqa: F401
+    except Exception:
+        cross = 0
+    cross_cases = set(random.Random(seed + 1).sample(range(len(cases)), min(ncross, len(cases)))) if cross else set()
+    _G.update(cases=cases, mods=mods, tier=a.tier, seed=seed, conform=conform, cross_per_case=cross, cross_cases=cross_cases)
     order = sorted(range(len(cases)), key=lambda i: -cases[i].weight)
     results = []
     if a.jobs <= 1 or len(cases) <= 1:
@@ -313,6 +332,7 @@ def main(argv=None):
     paths = 0
     nontrivial_cases = 0
     outcomes = {"ok": 0, "raise": 0, "unsupported": 0, "domain": 0, "limit": 0}
+    cross_tot = dict(checked=0, agree=0, unknown=0, error=0, cvc5_s=0.0, disagree=[], errors=[])
     for r in results:
         st = r["stats"]
         for k in ("requires", "ground_true", "obligations", "discharged", "unknown", "queries", "paths_with_requires",
@@ -325,6 +345,13 @@ def main(argv=None):
             tot["samples"] += st["samples"][:1]
         functions |= set(r["functions"])
         paths += r["paths"]
+        cx = st.get("cross")
+        if cx:
+            for k in ("checked", "agree", "unknown", "error"):
+                cross_tot[k] += cx[k]
+            cross_tot["cvc5_s"] += cx["cvc5_s"]
+            cross_tot["disagree"] += cx["disagree"]
+            cross_tot["errors"] = (cross_tot["errors"] + cx.get("errors", []))[:5]
         for k in outcomes:
             outcomes[k] += r["outcomes"][k]
         if st["discharged"] > 0:
@@ -341,6 +368,8 @@ def main(argv=None):
             problems.append(f"{r['id']}: vacuous (requires={st['requires']}, witnessed paths={st['paths_witnessed']}, ground-only paths={st['paths_ground_only']})")
         if st["paths_unwitnessed"]:
             problems.append(f"{r['id']}: satisfiability of {st['paths_unwitnessed']} path condition(s) unknown")
+    for d in cross_tot["disagree"][:10]:
+        problems.append("solver disagreement (z3 vs cvc5 on the same SMT-LIB2 query): " + d)
     # ---------------------------------------------------------------- conformance
     conf_checked, conf_bad = 0, []
     pinned = {r["id"]: r["pinned"] for r in results if "pinned" in r}
@@ -416,6 +445,9 @@ def main(argv=None):
         solver=f"z3 {__import__('z3').get_version_string()}", solver_s=round(tot["solver_s"], 2), max_query_s=round(tot["max_query_s"], 2),
         functions_encoded=sorted(functions), bounds=getattr(H, "BOUNDS", {}).get(a.tier, ""), outside=getattr(H, "OUTSIDE", ""),
         shim_conformance=dict(cases_checked=conf_checked, disagreements=len(conf_bad)),
+        second_solver=dict(solver="cvc5 " + _cvc5_version(), budget_per_case=_G.get("cross_per_case", 0), cases_sampled=len(_G.get("cross_cases", ())), queries_rechecked=cross_tot["checked"],
+                           agree=cross_tot["agree"], cvc5_unknown_or_timeout=cross_tot["unknown"], cvc5_rejected_syntax=cross_tot["error"],
+                           disagreements=len(cross_tot["disagree"]), cvc5_s=round(cross_tot["cvc5_s"], 2), rejected_samples=cross_tot["errors"][:3]),
         samples=tot["samples"][:5] + [{"case_ids": [r["id"] for r in results[:: max(1, len(results) // 8)]][:8]}],
         inconclusive=problems[:20], exhaustive=False,
     )
@@ -430,8 +462,14 @@ def main(argv=None):
     print(f"{prop} tier={a.tier}: {len(results)} cases, {paths} paths, {tot['obligations']} obligations "
           f"({tot['discharged']} discharged, {tot['unknown']} unknown, {len(seen_keys)} counterexamples), "
           f"{tot['ground_true']} ground checks, solver {tot['solver_s']:.1f}s, wall {wall:.1f}s")
+    if cross_tot["checked"]:
+        print(f"  second solver cvc5: {cross_tot['checked']} queries re-decided, {cross_tot['agree']} agree, {cross_tot['unknown']} unknown/timeout, "
+              f"{cross_tot['error']} not parsed, {len(cross_tot['disagree'])} disagree, {cross_tot['cvc5_s']:.1f}s")
     for pat, (k, hits) in sorted(known_hits.items()):
-        print(f"KNOWN-FINDING: property={prop} {k['what']} [{len(hits)} counterexample(s), e.g. {hits[0]}]")
+        what = k["what"]
+        if what.startswith(f"known: property={prop} "):
+            what = what[len(f"known: property={prop} "):]
+        print(f"KNOWN-FINDING: property={prop} {what} [{len(hits)} counterexample(s), e.g. {hits[0]}]")
     for cand, path in violations:
         print(f"VIOLATION property={prop} replay={path} case={cand['case']} obligation={cand['label']} info={cand.get('info')}")
     for p in problems[:30]:
